@@ -119,6 +119,18 @@ def cases(rng, tier):
         ts = ",".join(fhex(t) for t in [float(e["cum"]) for e in sel] + [float(ents[-1]["cum"]) + 1, -1.0, float("inf")])
         yield ("rth %s 0,255,256,16383,16384,%d,%d,70000 %s" % (hexs(b), len(pts) - 1, len(pts), ts), "long-plan")
     yield ("rth empty 0,1,70000 %s" % ",".join(fhex(t) for t in (-1.0, 0.0, 0.5, 10.0, 1e9, float("inf"), float("nan"))), "init-empty")
+    # cumulative times exactly at, one below and one above the 32-bit limit (2^32 - 1 still fits), reached in one or two steps
+    for last in (2 ** 32 - 2, 2 ** 32 - 1, 2 ** 32, 2 ** 32 + 5):
+        for first in (None, 100, 2 ** 31):
+            ents = []
+            cum = 0
+            for dt in ([first, last - first] if first is not None else [last]):
+                cum += dt
+                ents.append(dict(dt=dt, code=rng.choice([1, 2]), point=0, alt=10, neck=0, neckd=0, dur=5, pre=None, post=3, a=1, pad=0, cum=cum))
+                ents[-1]["a"] = ents[-1]["code"]
+            b = encode(2, [(5, -7)], ents)
+            ts = ",".join(fhex(t) for t in (0.0, 50.0, 200.0, 3.0e9, 4294967040.0, 5.0e9, float("inf")))
+            yield ("rth %s 0,1 %s" % (hexs(b), ts), "cumulative-at-limit")
     for i in range(n):
         big = (i % 4 == 0)
         scale, pts, ents = rand_plan(rng, big)
